@@ -158,9 +158,19 @@ class Generator:
             span = fn['body']
             wrap = False
         elif u.kind == 'arm':
-            pat = normtok(u.sel[0])
             k = int(u.sel[1][1:]) if len(u.sel) > 1 else 0
-            c = [a for a in fn['arms'] if normtok(a['pat']) == pat]
+            if ' if ' in u.sel[0]:
+                # `PAT if GUARD`: the arm is named by its pattern AND its guard text (robust against arms being added or reordered)
+                ptxt, gtxt = u.sel[0].split(' if ', 1)
+                pat, gw = normtok(ptxt), normtok(gtxt)
+                c = []
+                for m in fn.get('matches', []):
+                    for a in m['arms']:
+                        if a.get('guard') and normtok(a['pat']) == pat and normtok(src[a['guard']['expr'][0]:a['guard']['expr'][1]].decode()) == gw:
+                            c.append(a)
+            else:
+                pat = normtok(u.sel[0])
+                c = [a for a in fn['arms'] if normtok(a['pat']) == pat]
             if len(c) <= k:
                 raise GenError(f'lost-anchor: arm "{u.sel[0]}" #{k} in {u.fnpath}')
             span = c[k]['body']
